@@ -242,6 +242,14 @@ theorem c17_slots_suffice (max : Nat) (cores : List Nat) (hfit : cores.sum ≤ m
   obtain ⟨t, ht, hd⟩ := hnd
   exact ⟨t, ht, by simpa using hd⟩
 
+/-- negative: the slot hypothesis of C17 is needed. With one slot for a producer/consumer pair the producer takes
+the slot, cannot finish before its consumer runs, and the consumer waits for the slot for ever: the state after
+the schedule `[0, 0, 1]` is not final and has no enabled step -/
+theorem c17_too_few_slots_deadlock :
+    (Slots.runB ⟨true⟩ (Slots.init 1 [1, 1]) [0, 0, 1]).map
+      (fun s => (Slots.allDone s, (List.range 2).map fun i => (Slots.stepB ⟨true⟩ s i).isSome)) =
+    some (false, [false, false]) := by decide
+
 /-- the consumer reads exactly the producer's bytes, in order, once the pipe is closed and drained
 (the producer is sender 0 of a one-sender byte channel of any capacity) -/
 theorem c17_bytes_equal (pipeCap : Nat) (bytes : List Nat) (ls : List Chan.Label) (st : Chan.ChSt)
@@ -267,4 +275,5 @@ end SciVerif.Stream
 #print axioms SciVerif.TaskFS.step_NS
 #print axioms SciVerif.TaskFS.c17_no_regular_file
 #print axioms SciVerif.Stream.c17_slots_suffice
+#print axioms SciVerif.Stream.c17_too_few_slots_deadlock
 #print axioms SciVerif.Stream.c17_bytes_equal
